@@ -207,6 +207,10 @@ def update_each_iteration(ck, ctx):
 
 
 def run(ck, ctx):
+    # `tasks_run + work.tasks_run` does not double count: whenever phase 1 ran a command, phase 2 counts in a Work created after it
+    from . import C17 as R17
+    _info = R17.analyse(ck, ctx)
+    R17.reload(ck, ctx, _info)
     C.adapter_census(ck, ctx, "table", ("work::", "run::"))
     SM.eff_table(ck, ctx, ["counts-prev", "counts-new"])
     ck.extra["exhaustive_subrule"] = "table: all 98 abstract inputs of BuildStates::set enumerated"
